@@ -159,9 +159,15 @@ func execC08(c c08Case) Outcome {
 		}
 	} else {
 		if sw, err = d.openWriter(d.sshdPipe); err != nil {
+			if strings.Contains(d.stderrText(), "address already in use") {
+				return Outcome{Skip: "port_2112_taken_by_another_process"}
+			}
 			panic(&infraError{err.Error() + "; stderr: " + tailStr(d.stderrText(), 800)})
 		}
 		if aw, err = d.openWriter(d.audPipe); err != nil {
+			if strings.Contains(d.stderrText(), "address already in use") {
+				return Outcome{Skip: "port_2112_taken_by_another_process"}
+			}
 			panic(&infraError{err.Error() + "; stderr: " + tailStr(d.stderrText(), 800)})
 		}
 		// traffic prefix: complete, correlated sessions
